@@ -43,7 +43,7 @@ PLANS = {
     "C07": P("exploration", SEM, 15000, 600, SEM + ["mid", "host"], 100000, 1200),
     "C08": P("exploration", SEM, 60000, 900, SEM + ["host", "host-nosse"], 180000, 1700),
     "C09": P("exploration", SEM, 32000, 500, SEM + ["mid", "host"], 100000, 900),
-    "C10": P("exploration", WRAP, 3000, 400, WRAP, 8000, 800),
+    "C10": P("exploration", WRAP, 2000, 400, WRAP, 8000, 800),
     "C11": P("exploration", STRICT4, 10000, 400, STRICT4, 30000, 800, strict=True, san_to_stderr=True),
     "C13": P("exploration", ["small", "small-nosse", "mid"], 48000, 500, ["small", "small-nosse", "mid", "host"], 150000, 1200, shards=15),
     "C14": P("exploration", WRAP, 1500, 100, WRAP + ["small-ts-wrap-strict"], 5000, 100, case_timeout=900),
